@@ -334,6 +334,7 @@ func ReactScenarios() []History {
 	for i := 1; i < 16; i += 3 {
 		fleet = append(fleet, fmt.Sprintf("q%03d", i))
 	}
+	fleet = append(fleet, "q020", "q025", "q026", "q097") // (the ones whose addresses sort last among the 104)
 	ops = append(ops, Ev{Name: "Call", Signer: "c1", Svc: "s", Provs: fleet, Cap: 10, Timeout: 2}, eb(1))
 	for i, q := range fleet {
 		ops = append(ops, Ev{Name: "Respond", Signer: q, Rid: rid(1, 1, 1, int64(i)), Kind: "valid"})
